@@ -100,3 +100,29 @@ package updates
 //@ loop 1 invariant refs != nil && fresh(refs) && RefsFreshWF(refs) && OnceFrom(refs, uuid)
 //@ loop 1 invariant forall s: database.ReferenceSpec :: (s in refs) ==> (fresh(refs[s]) && (s == keySpec || s == valueSpec))
 //@ loop 1 invariant forall s: database.ReferenceSpec, t: string :: (s in refs) && (t in refs[s]) ==> fresh(refs[s][t])
+
+// ---- mutate.go (C19/C03): arithmetic mutators never divide by zero -----------------
+// The divisor of an integer division or modulo is non-zero: required of the
+// callers here, established by ovsdb.ValidateMutation, and checked at the call
+// in addMutateOperation.
+//@ pred IntOperand(current interface{}, value interface{}) := (istype(current, "int") || istype(current, "[]int")) ==> istype(value, "int")
+//@ pred RealOperand(current interface{}, value interface{}) := (istype(current, "float64") || istype(current, "[]float64")) ==> istype(value, "float64")
+//@ pred NonZeroDivisor(value interface{}) := istype(value, "int") ==> unbox(value, "int") != 0
+
+//@ func mutateDivide
+//@ requires IntOperand(current, value) && RealOperand(current, value) && NonZeroDivisor(value)
+//@ func mutateModulo
+//@ requires IntOperand(current, value) && NonZeroDivisor(value)
+//@ func mutateAdd
+//@ requires IntOperand(current, value) && RealOperand(current, value)
+//@ func mutateSubtract
+//@ requires IntOperand(current, value) && RealOperand(current, value)
+//@ func mutateMultiply
+//@ requires IntOperand(current, value) && RealOperand(current, value)
+
+//@ func mutate
+//@ requires (mutator == "+=" || mutator == "-=" || mutator == "*=" || mutator == "/=" || mutator == "%=") ==> (IntOperand(current, value) && RealOperand(current, value))
+//@ requires (mutator == "/=" || mutator == "%=") ==> NonZeroDivisor(value)
+
+//@ func (*ModelUpdates).addMutateOperation
+//@ at call updates.mutate requires (arg1 == "/=" || arg1 == "%=") ==> NonZeroDivisor(arg2)
